@@ -154,6 +154,7 @@ type LastOp struct {
 	Arm     int
 	Partner *Thread
 	Tag     string
+	Send    bool // the completed channel operation of Thread was a send (its partner, if any, received)
 }
 
 // Sched is the state of one execution.
@@ -586,7 +587,12 @@ func (s *Sched) apply(tr trans) {
 	t := tr.t
 	o := t.pend
 	t.nops++
-	s.Last = LastOp{Thread: t, Kind: o.k, Obj: o.obj, Arm: tr.arm, Partner: tr.partner, Tag: o.tag}
+	if o.k != KStart && o.k != KResume { // local steps are not events: Last stays the last real operation
+		s.Last = LastOp{Thread: t, Kind: o.k, Obj: o.obj, Arm: tr.arm, Partner: tr.partner, Tag: o.tag}
+		if tr.arm >= 0 && tr.arm < len(o.arms) {
+			s.Last.Send = o.arms[tr.arm].send
+		}
+	}
 	note := func(vs ...uint64) {
 		t.hash = hmix(t.hash, append([]uint64{uint64(o.k)}, vs...)...)
 	}
